@@ -6,6 +6,7 @@ import Model.C18.SpendSize
 import Proofs.C18.Estimate
 import Proofs.C18.SigOps
 import Proofs.C18.Finalize
+import Proofs.C18.Sums
 /-!
 # C18 — sizes, fees and amounts are exact integer accounting (DESIGN §3 C18)
 
@@ -53,6 +54,51 @@ theorem vsize_is_ceiling (w v : Int) (h0 : 0 ≤ w) (h : w < 2 ^ 53) (hv : Gen.F
 example : Gen.Fee.tx_vsize (2 ^ 53 + 1) = .ok (2 ^ 51) := by decide
 example : ((2 : Int) ^ 53 + 1 + 3) / 4 = 2 ^ 51 + 1 := by decide
 example : Gen.Fee.tx_vsize 561 = .ok 141 := by decide
+
+/-- `Tx._serialized_size` (translated, `Gen.Fee.tx_serialized_size`: fixed fields, the CompactSize of each count, the
+    sums of the items' sizes, marker+flag and witnesses only when segwit AND asked) gives `Tx.weight` = four times
+    the non-witness bytes plus the witness bytes (marker and flag count as witness). -/
+theorem tx_weight_by_parts (t : TxParts) :
+    txW t = 4 * (8 + Gen.VarInt.size t.nIn + t.ins + Gen.VarInt.size t.nOut + t.outs) +
+      (if t.isSegwit then 2 + t.wits else 0) := by
+  unfold txW txSer Gen.Fee.tx_weight Gen.Fee.tx_serialized_size
+  cases t.isSegwit <;> simp <;> omega
+
+/-- Blocks: `Block._serialized_size` (translated) is the header, the CompactSize of the transaction count and the SUM
+    of the transactions' sizes; hence `Block.weight` is the sum of the transactions' weights plus four times
+    (header + CompactSize of the count) -- 324 more than the sum for fewer than 253 transactions, 332 up to 65535
+    (the figures `Block.weight`'s docstring quotes), for every list of transactions. -/
+theorem block_weight_is_sum (hdr : Int) (txs : List TxParts) :
+    blockSer hdr true txs = hdr + Gen.VarInt.size txs.length + (txs.map (txSer true)).sum ∧
+    blockW hdr txs = 4 * (hdr + Gen.VarInt.size txs.length) + (txs.map txW).sum ∧
+    (txs.length < 253 → blockW 80 txs = 324 + (txs.map txW).sum) ∧
+    (253 ≤ txs.length → txs.length ≤ 65535 → blockW 80 txs = 332 + (txs.map txW).sum) := by
+  have hw : ∀ hdr : Int, blockW hdr txs = 4 * (hdr + Gen.VarInt.size txs.length) + (txs.map txW).sum := by
+    intro hdr
+    unfold blockW blockSer Gen.Fee.block_weight Gen.Fee.block_serialized_size
+    have := sum_weight (txSer false) (txSer true) txs
+    have e : (txs.map fun t => 3 * txSer false t + txSer true t) = txs.map txW := by
+      apply List.map_congr_left; intro t _; simp [txW, Gen.Fee.tx_weight]
+    rw [e] at this
+    omega
+  refine ⟨rfl, hw hdr, ?_, ?_⟩
+  · intro h
+    rw [hw 80]
+    have : ((txs.length : Nat) : Int) < 253 := by omega
+    simp only [Gen.VarInt.size, this, if_true]
+    omega
+  · intro h1 h2
+    rw [hw 80]
+    have a : ¬ ((txs.length : Nat) : Int) < 253 := by omega
+    have b : ((txs.length : Nat) : Int) ≤ 65535 := by omega
+    simp only [Gen.VarInt.size, a, b, if_true, if_false]
+    omega
+
+-- non-vacuity: a block of one 204-byte legacy transaction weighs 4*204 + 324; block 481 824's 1866 transactions add 332
+example : blockW 80 [⟨false, 1, 1, 41, 34, 0⟩] = 4 * (8 + 1 + 41 + 1 + 34) + 324 := by decide
+example : blockSer 80 true (List.replicate 253 ⟨true, 1, 1, 41, 31, 108⟩) = 80 + 3 + 253 * (10 + 1 + 41 + 1 + 31 + 108) := by
+  decide +kernel
+example : txW ⟨true, 1, 1, 41, 31, 108⟩ = 4 * 82 + 110 := by decide
 
 /-! ## T2 — fee = ⌈rate · vsize / 1000⌉, package fee, dust threshold -/
 
@@ -158,6 +204,24 @@ theorem dust_threshold_is_core (spk : Bytes) (rate : Nat) :
 theorem dust_threshold_negative_rate (spk : Bytes) (rate : Int) (h : rate < 0) :
     dustThreshold spk rate = .error .value := by
   unfold dustThreshold feeRate; simp [h]; rfl
+
+open Btc.Spend in
+/-- Every standard output type has its own threshold, each from the translated `dust_threshold` at ANY dust rate:
+    the rate's fee on 182 (p2pkh), 180 (p2sh), 98 (p2wpkh), 110 (p2wsh, p2tr) bytes -- Core's 546 / 540 / 294 / 330 / 330
+    at 3000 sat/kvB.  The script templates are the generated ones (`Gen.Spend.*_PREFIX/_SUFFIX`). -/
+theorem dust_threshold_per_output_type (rate : Nat) (h20 h32 : Bytes) (l20 : h20.length = 20) (l32 : h32.length = 32) :
+    dustThreshold (p2pkh h20) rate = .ok (Core.getFee rate 182 : Nat) ∧
+    dustThreshold (p2sh h20) rate = .ok (Core.getFee rate 180 : Nat) ∧
+    dustThreshold (p2wpkh h20) rate = .ok (Core.getFee rate 98 : Nat) ∧
+    dustThreshold (p2wsh h32) rate = .ok (Core.getFee rate 110 : Nat) ∧
+    dustThreshold (p2tr h32) rate = .ok (Core.getFee rate 110 : Nat) := by
+  simp only [dust_threshold_is_core]
+  refine ⟨?_, ?_, ?_, ?_, ?_⟩ <;>
+  simp [Core.getDustThreshold, Core.isUnspendable, Core.beginsWith, Core.isWitnessProgram, Core.sizeOfCompactSize,
+    p2pkh, p2sh, p2wpkh, p2wsh, p2tr, Gen.Spend.P2PKH_PREFIX, Gen.Spend.P2PKH_SUFFIX, Gen.Spend.P2SH_PREFIX,
+    Gen.Spend.P2SH_SUFFIX, Gen.Spend.P2WPKH_PREFIX, Gen.Spend.P2WSH_PREFIX, Gen.Spend.P2TR_PREFIX, l20, l32]
+example : Core.getFee 3000 182 = 546 ∧ Core.getFee 3000 180 = 540 ∧ Core.getFee 3000 98 = 294 ∧ Core.getFee 3000 110 = 330 := by
+  decide
 
 -- non-vacuity and Core's well-known figures at the default 3000 sat/kvB
 example : feeFromVsize 141 1500 = .ok 212 := by decide
@@ -266,6 +330,61 @@ theorem funding_refuses_exactly (a : FundArgs) (est : Bool → Except PyErr Int)
       have := key (a.nOut = 0 ∨ a.totalIn - a.totalOut < owed₂) ⟨a.totalIn - a.totalOut, none⟩
       exact ⟨this.1.trans cond, this.2.trans (not_congr cond)⟩
 
+/-- What `tx_builder` offers is `build_psbt` and its result type, nothing else: btclib ships NO coin-selection strategy
+    (the module says so: "this spends the ones it is given, all of them"), so the funding theorems above, which
+    quantify over every set of inputs through `nIn`/`totalIn`, are about every way the library can fund.  The list
+    is regenerated from the source (public definitions = `__all__`, and `build_psbt`'s parameters): a selection
+    function or a new knob arriving in the module breaks this obligation instead of going unmodelled. -/
+theorem funding_entry_points :
+    Gen.Fee.TX_BUILDER_PUBLIC = ["FundedPsbt", "build_psbt"] ∧
+    Gen.Fee.BUILD_PSBT_PARAMS = ["inputs", "outputs", "fee_rate", "change_script_pub_key", "tx_version", "lock_time",
+      "dust_fee_rate", "sizer"] := by decide
+
+/-- The change / no-change boundary, exactly.  What the fee leaves EQUAL to the dust threshold is a change output of
+    exactly that amount at fee `fee₁`; one satoshi less and there is no change output, the whole remainder
+    `fee₁ + dust − 1` is the fee (provided it covers what the smaller transaction owes). -/
+theorem funding_change_boundary (a : FundArgs) (est : Bool → Except PyErr Int) (script : Bytes)
+    (v₁ v₂ fee₁ owed₂ dust : Int)
+    (hi : a.nIn ≠ 0) (hm : a.totalOut ≤ 2100000000000000) (hch : a.change = some script)
+    (he₁ : est true = .ok v₁) (he₂ : est false = .ok v₂)
+    (hf₁ : Gen.Fee.fee_from_vsize v₁ a.rate = .ok fee₁) (hf₂ : Gen.Fee.fee_from_vsize v₂ a.rate = .ok owed₂)
+    (hd : dustThreshold script a.dustRate = .ok dust) :
+    (a.totalIn - a.totalOut - fee₁ = dust → a.totalIn - fee₁ ≤ 2100000000000000 →
+      fund a est = .ok ⟨fee₁, some dust⟩) ∧
+    (a.totalIn - a.totalOut - fee₁ = dust - 1 → a.nOut ≠ 0 → owed₂ ≤ a.totalIn - a.totalOut →
+      fund a est = .ok ⟨fee₁ + dust - 1, none⟩) := by
+  have key := (funding_refuses_exactly a est v₁ v₂ fee₁ owed₂ hi hm he₁ he₂ hf₁ hf₂).2 script dust hch hd
+  constructor
+  · intro h hx
+    have := ((key.1 (by omega)).2).2 (by omega)
+    rw [this, h]
+  · intro h hn ho
+    have := ((key.2 (by omega)).2).2 (by omega)
+    rw [this]
+    have : a.totalIn - a.totalOut = fee₁ + dust - 1 := by omega
+    rw [this]
+
+/-- How far above the rate the fee can be.  With a change output the fee is EXACTLY `fee_from_vsize` of the estimate
+    (never a satoshi more than the ceiling); when a change script was given and the change was dropped, the fee is
+    below that figure plus the dust threshold: the overpayment is "exactly the change that was too small to create". -/
+theorem funding_overpay_bounded (a : FundArgs) (est : Bool → Except PyErr Int) (r : Funded)
+    (h : fund a est = .ok r) :
+    (∀ c, r.change = some c → ∃ v, est true = .ok v ∧ Gen.Fee.fee_from_vsize v a.rate = .ok r.fee) ∧
+    (r.change = none → ∀ script, a.change = some script →
+      ∃ v fee₁ dust, est true = .ok v ∧ Gen.Fee.fee_from_vsize v a.rate = .ok fee₁ ∧
+        dustThreshold script a.dustRate = .ok dust ∧ r.fee < fee₁ + dust) := by
+  obtain ⟨_, _, h | h⟩ := fund_ok a est r h
+  · obtain ⟨_, _, _, _, _, _, hr⟩ := fundNoChange_ok a est r h.1
+    subst hr
+    refine ⟨fun c hc => (by cases hc), fun _ script hs => ?_⟩
+    rcases h.2 with hnone | ⟨script', v, fee, dust, hs', he, hf, hd, hlt⟩
+    · rw [hnone] at hs; cases hs
+    · rw [hs'] at hs; cases hs
+      exact ⟨v, fee, dust, he, hf, hd, by simp; omega⟩
+  · obtain ⟨script, v, fee, dust, hs, he, hf, hd, hge, hmax, hr⟩ := h
+    subst hr
+    exact ⟨fun c _ => ⟨v, he, hf⟩, fun hc => by cases hc⟩
+
 -- non-vacuity: one funded psbt with change, one whose change was dust and went to the fee, one refusal
 example : fund ⟨1, 100000, 60000, 1, 10000, some ([0, 20] ++ List.replicate 20 7), 3000⟩ (fun b => .ok (if b then 141 else 110))
     = .ok ⟨1410, some 38590⟩ := by decide
@@ -274,6 +393,14 @@ example : fund ⟨1, 61500, 60000, 1, 10000, some ([0, 20] ++ List.replicate 20 
 example : fund ⟨1, 61000, 60000, 1, 10000, some ([0, 20] ++ List.replicate 20 7), 3000⟩ (fun b => .ok (if b then 141 else 110))
     = .error .value := by decide
 example : fund ⟨0, 0, 0, 1, 0, none, 3000⟩ (fun _ => .ok 10) = .error .value := by decide
+-- the boundary at p2wpkh change, 3000 sat/kvB (dust 294), fee 1410: remainder 1704 -> change 294; 1703 -> fee 1703
+example : fund ⟨1, 61704, 60000, 1, 10000, some ([0, 20] ++ List.replicate 20 7), 3000⟩ (fun b => .ok (if b then 141 else 110))
+    = .ok ⟨1410, some 294⟩ := by decide
+example : fund ⟨1, 61703, 60000, 1, 10000, some ([0, 20] ++ List.replicate 20 7), 3000⟩ (fun b => .ok (if b then 141 else 110))
+    = .ok ⟨1703, none⟩ := by decide
+-- fee rounding at a ceiling boundary: 141 vB at 1001 sat/kvB is 141.141 -> 142
+example : fund ⟨1, 100000, 60000, 1, 1001, some ([0, 20] ++ List.replicate 20 7), 3000⟩ (fun b => .ok (if b then 141 else 110))
+    = .ok ⟨142, some 39858⟩ := by decide
 
 /-! ## T5 — amounts and fee-rate units (Decimal = exact rational sign·coeff·10^exp) -/
 
@@ -728,6 +855,81 @@ theorem estimate_covers_taproot_leaf_given_sizer (lh : Nat → Bytes → Bytes) 
   exact ⟨_, _, hest, Btc.C18.Fin.finalize_taproot_leaf lh vk vl sht x lhash sig cb ht hx hlh hleaf hht hv,
     by simp [sizesOf], hs, Nat.le_refl _, Nat.le_refl _, trivial⟩
 
+open Btc.Script Btc.Spend in
+/-- What the estimate does for a taproot input that carries leaf scripts when NO sizer answers (btclib ships none for
+    taproot leaves): it REFUSES (`BTClibValueError`) -- whatever else the input holds, key-path data included -- and
+    never guesses; so no fee is ever computed from a low figure there. -/
+theorem estimate_refuses_taproot_script_path_without_sizer (tp : Bytes → Ty × Bytes) (H : Bytes → Bytes)
+    (spk q redeem ws : Bytes) (hd : List Bytes) (sht : Option Nat) (htp : tp spk = (.p2tr, q)) :
+    estimatedInputSizes tp H none ⟨some spk, redeem, ws, hd, sht, true, [], []⟩ = .error .value := by
+  simp [estimatedInputSizes, htp, taprootWitnessSizes, asked, Except.map]
+
+open Btc.Script Btc.Spend in
+/-- key path of an input that ALSO carries leaf scripts: the finalizer takes the key path whenever a key-path signature
+    is present (whatever script-path signatures and leaves sit beside it), and the estimate is the caller's sizer's
+    answer: it covers when the sizer answers at least the signature's length -/
+theorem estimate_covers_taproot_key_beside_leaves_given_sizer (lh : Nat → Bytes → Bytes) (vk : Nat → Bytes → Bool)
+    (vl : Nat → Bytes → Bytes → Bytes → Bool) (tp : Bytes → Ty × Bytes) (H : Bytes → Bytes)
+    (spk q sig : Bytes) (hd : List Bytes) (sht : Option Nat) (ss : List (Bytes × Bytes)) (ls : List (Bytes × Bytes × Nat))
+    (ht s : Nat) (htp : tp spk = (.p2tr, q)) (hne : sig.isEmpty = false) (hs : sig.length ≤ s)
+    (hht : tapSigHashType sig sht = .ok ht) (hv : vk ht (sig.take 64) = true) :
+    ∃ est fin, estimatedInputSizes tp H (some [s]) ⟨some spk, [], [], hd, sht, true, [], []⟩ = .ok est ∧
+      finalizedTaproot lh vk vl ⟨sht, sig, ss, ls⟩ = .ok fin ∧ coversIn (sizesOf fin) est := by
+  have hest : estimatedInputSizes tp H (some [s]) ⟨some spk, [], [], hd, sht, true, [], []⟩ =
+      .ok ((serializePushes []).length, [s]) := by
+    simp [estimatedInputSizes, htp, taprootWitnessSizes, asked, Except.map]
+  exact ⟨_, _, hest, Btc.C18.Fin.finalize_taproot_key lh vk vl sht sig ss ls ht hne hht hv,
+    by simp [sizesOf], hs, trivial⟩
+
+open Btc.Script Btc.Spend in
+/-- The leaf forms the library can SIGN are more than those it can FINISH: `_sign_taproot_script_path` writes a
+    signature for every key of every leaf it holds (a `multi_a` leaf included), but `_finalized_taproot_input` closes
+    over one leaf shape only -- `<32-byte key> OP_CHECKSIG`, 34 bytes.  For ANY taproot input without a key-path
+    signature whose leaf scripts are all of another length (every `multi_a` leaf: 34·n + 2 bytes), the finalizer
+    refuses, whatever signatures are present: there is no library-signed transaction for the estimate to be compared
+    with (oracle `psbt.estimate_tapleaf` observes exactly this on the real code). -/
+theorem taproot_leaf_other_than_single_key_is_not_finalized (lh : Nat → Bytes → Bytes) (vk : Nat → Bytes → Bool)
+    (vl : Nat → Bytes → Bytes → Bytes → Bool) (tin : TapIn) (hk : tin.keySig = [])
+    (hl : ∀ e ∈ tin.leafScripts, e.2.1.length ≠ Gen.Spend.SINGLE_KEY_LEAF_SIZE) :
+    ∃ e, finalizedTaproot lh vk vl tin = .error e := by
+  have hC : ∀ x s cb, Spend.leafScript lh tin x = .ok (s, cb) → singleLeafKey s = .error .value := by
+    intro x s cb h
+    unfold Spend.leafScript at h
+    cases hf : tin.leafScripts.find? (fun e => lh e.2.2 e.2.1 == x) with
+    | none => simp [hf] at h
+    | some e =>
+      obtain ⟨cb', script, ver⟩ := e
+      have hmem := List.mem_of_find?_eq_some hf
+      have hne := hl _ hmem
+      simp only [hf] at h
+      cases h
+      simp [singleLeafKey, hne]
+  match hss : tin.scriptSigs with
+  | [] => exact ⟨.value, by simp [finalizedTaproot, hk, hss]⟩
+  | _ :: _ :: _ => exact ⟨.value, by simp [finalizedTaproot, hk, hss]⟩
+  | [(keyData, sig)] =>
+    cases hht : tapSigHashType sig tin.sigHashType with
+    | error e => exact ⟨e, by simp [finalizedTaproot, hk, hss, hht, bind, Except.bind]⟩
+    | ok ht =>
+      by_cases hlen : (keyData.drop Gen.Spend.LEAF_HASH_SIZE).length ≠ Gen.Spend.LEAF_HASH_SIZE
+      · have hlen' : ¬ (keyData.length - Gen.Spend.LEAF_HASH_SIZE = Gen.Spend.LEAF_HASH_SIZE) := by simpa using hlen
+        exact ⟨.value, by simp [finalizedTaproot, hk, hss, hht, hlen', bind, Except.bind, throw, throwThe, MonadExceptOf.throw]⟩
+      · have hlen' : keyData.length - Gen.Spend.LEAF_HASH_SIZE = Gen.Spend.LEAF_HASH_SIZE := by simpa using hlen
+        cases hls : Spend.leafScript lh tin (keyData.drop Gen.Spend.LEAF_HASH_SIZE) with
+        | error e => exact ⟨e, by simp [finalizedTaproot, hk, hss, hht, hlen', hls, bind, Except.bind]⟩
+        | ok r =>
+          obtain ⟨s, cb⟩ := r
+          have hsk := hC _ s cb hls
+          exact ⟨.value, by simp [finalizedTaproot, hk, hss, hht, hlen', hls, hsk, bind, Except.bind]⟩
+
+-- non-vacuity: a 2-of-2 multi_a leaf (70 bytes) with both signatures present is refused; the estimate without a sizer too
+open Btc.Spend in
+example : finalizedTaproot (fun _ s => s.take 32) (fun _ _ => true) (fun _ _ _ _ => true)
+    ⟨none, [], [(List.replicate 64 1, List.replicate 64 9), (List.replicate 64 2, List.replicate 64 9)],
+      [(List.replicate 33 0xc0, List.replicate 70 1, 0xc0)]⟩ = .error .value := by decide +kernel
+example : estimatedInputSizes (typeAndPayload (fun _ => true)) (fun _ => []) none
+    ⟨some (Btc.Spend.p2tr (List.replicate 32 7)), [], [], [], none, true, [], []⟩ = .error .value := by decide
+
 /-- hence, for ANY mix of inputs each covered by its estimate (and the same outputs), the estimated size,
     stripped size, weight and virtual size are at least those of the transaction that is signed:
     `Psbt.weight_estimate` is `Tx.weight` of the placeholder transaction, monotone in every element size,
@@ -743,6 +945,16 @@ theorem estimated_weight_covers_any_mix (act est : List (Nat × List Nat)) (nOut
   have h3 : txWeight act nOut outs ≤ txWeight est nOut outs := by
     unfold txWeight Gen.Fee.tx_weight; omega
   exact ⟨h1, h2, h3, by omega⟩
+
+/-- the sizes those theorems are about are the SOURCE's: the hand-written `txSize`/`txWeight` over per-input sizes equal the
+    translated `Tx._serialized_size` / `Tx.weight` applied to the placeholder transaction's parts -/
+theorem estimated_weight_is_translated (ins : List (Nat × List Nat)) (nOut outs : Nat) :
+    ((txSize true ins nOut outs : Nat) : Int) = txSer true (partsOf ins nOut outs) ∧
+    ((txSize false ins nOut outs : Nat) : Int) = txSer false (partsOf ins nOut outs) ∧
+    txWeight ins nOut outs = txW (partsOf ins nOut outs) := by
+  refine ⟨txSize_eq_translated _ _ _ _, txSize_eq_translated _ _ _ _, ?_⟩
+  unfold txWeight txW
+  rw [txSize_eq_translated, txSize_eq_translated]
 
 /-- Composition (T3 ∘ T4 ∘ T2): a funded psbt pays at least the requested rate on its FINAL virtual size.
     If the estimator `build_psbt` consulted is the vsize of input sizes that cover the finalized inputs (per-template
